@@ -40,3 +40,20 @@ package protocol
 //@     invariant @per134 forall k int :: 0 <= k && k < idx ==> contentBytes[k] == cat(udh(int(frameKey), msgCount % 256, (k + 1) % 256), ext(content(data), 134 * k, min(134 * (k + 1), total)))
 //@     invariant @per153 forall k int :: 0 <= k && k < idx ==> contentBytes[k] == cat(udh(int(frameKey), msgCount % 256, (k + 1) % 256), ext(content(data), 153 * k, min(153 * (k + 1), total)))
 //@     decreases msgCount - idx
+
+// ---------------------------------------------------------------- content encoding + splitting (C06, C07)
+// cmppok / cmppenc: can coding number f represent c, and its image (ASCII proved, the others assumed codecs).
+
+//@ pred cmppvalid(f int) = f == 0 || f == 8 || f == 9 || f == 15
+//@ pred cmppok(f int, c Bytes) = f == 0 ? datacoding.isascii(c) : (f == 15 ? gbok(c) : ucs2ok(c))
+//@ pure func cmppenc(f int, c Bytes) Bytes = f == 0 ? c : (f == 15 ? gbenc(c) : ucs2enc(c))
+//@ pred partsOf(ps [][]byte, E Bytes, key int, per int) = forall k int :: 0 <= k && k < len(ps) ==> ps[k] == cat(udh(key, len(ps), k + 1), ext(E, per * k, min(per * (k + 1), len(E))))
+
+//@ func EncodeCMPPContentAndSplit
+//@   props C06,C07
+//@   ensures [C06 coding.requested] cmppvalid(int(msgFmt)) && cmppok(int(msgFmt), content) ==> err == nil && int(actualMsgFmt) == int(msgFmt)
+//@   ensures [C06 coding.fallback] !(cmppvalid(int(msgFmt)) && cmppok(int(msgFmt), content)) && ucs2ok(content) && (len(ucs2enc(content)) + 133) / 134 <= 255 ==> err == nil && int(actualMsgFmt) == 8
+//@   ensures [C06 coding.error] !(cmppvalid(int(msgFmt)) && cmppok(int(msgFmt), content)) && !ucs2ok(content) ==> err != nil
+//@   ensures [C06,C07 single] err == nil && len(cmppenc(int(actualMsgFmt), content)) <= 140 ==> len(contents) == 1 && contents[0] == cmppenc(int(actualMsgFmt), content)
+//@   ensures [C06,C07 multi] err == nil && len(cmppenc(int(actualMsgFmt), content)) > 140 ==> len(contents) == (len(cmppenc(int(actualMsgFmt), content)) + 133) / 134 && len(contents) <= 255 && partsOf(contents, cmppenc(int(actualMsgFmt), content), int(frameKey), 134)
+//@   ensures [C07 toomany] cmppvalid(int(msgFmt)) && cmppok(int(msgFmt), content) && (len(cmppenc(int(msgFmt), content)) + 133) / 134 > 255 ==> err != nil
